@@ -369,7 +369,19 @@ func (t *UpdateTran) Output(th *core.Thread, table string, rec core.Record) {
 	}()
 	ti.Nrows++
 	ti.Size += int64(n)
-	t.db.CallTrigger(th, t, table, "", rec)
+	t.callTrigger(th, table, "", rec)
+}
+
+// callTrigger aborts the transaction if the trigger fails
+// so that the change cannot be committed by a caller that catches the exception
+func (t *UpdateTran) callTrigger(th *core.Thread, table string, oldrec, newrec core.Record) {
+	defer func() {
+		if e := recover(); e != nil {
+			t.Abort()
+			panic(e)
+		}
+	}()
+	t.db.CallTrigger(th, t, table, oldrec, newrec)
 }
 
 func (t *UpdateTran) dupOutputBlock(table string, iIndex int, ix schema.Index,
@@ -460,7 +472,7 @@ func (t *UpdateTran) Delete(th *core.Thread, table string, off uint64) {
 		assert.That(ti.Size >= n)
 		ti.Size -= n
 	}()
-	t.db.CallTrigger(th, t, table, rec, "")
+	t.callTrigger(th, table, rec, "")
 }
 
 // fkeyDeleteBlock panics if there are foreign keys referencing key
@@ -638,7 +650,7 @@ func (t *UpdateTran) update(th *core.Thread, table string, oldoff uint64, newrec
 			}
 		}
 	}()
-	t.db.CallTrigger(th, t, table, oldrec, newrec)
+	t.callTrigger(th, table, oldrec, newrec)
 	return newoff
 }
 
